@@ -1,0 +1,20 @@
+//go:build verif
+
+package apk
+
+import (
+	"context"
+	"net/http"
+)
+
+// VerifFetchRepositoryIndex exposes fetchRepositoryIndex (the index download
+// through the range-retry reader) with the given client (build tag verif only).
+func VerifFetchRepositoryIndex(ctx context.Context, u string, client *http.Client) ([]byte, error) {
+	return fetchRepositoryIndex(ctx, u, "", &indexOpts{httpClient: client})
+}
+
+// VerifIndexCacheClient is the client the index download uses when a cache
+// directory is configured (etag-keyed entries), with a fresh in-process Cache.
+func VerifIndexCacheClient(dir string, wrapped *http.Client) *http.Client {
+	return (&cache{dir: dir, shared: NewCache(true)}).client(wrapped, true)
+}
